@@ -123,6 +123,11 @@ class Check:
         self.streams: dict[str, dict] = {}
         self.known = [f for f in load_known().get("findings", []) if f.get("property") == pid]
         self.log_lines: list[str] = []
+        for old in REPLAYS.glob("%s-*.json" % pid):  # replays belong to one run
+            try:
+                old.unlink()
+            except OSError:
+                pass
 
     # ------------------------------------------------------------------ logging
     def log(self, *a):
